@@ -88,6 +88,7 @@ type c17State struct {
 	bloomAns map[string]bool
 	tables   []*sst.Table
 	runInput []c17Entry
+	runTgt   uint64
 	ran      bool
 	keep     []any // tables must stay reachable: their GC cleanup deletes the file
 	w        *wal.Writer
@@ -162,13 +163,30 @@ func c17Scan(t *sst.Table, prefix []byte) string {
 	return c17ShowEntries(es)
 }
 
-// runOK evaluates the statements of writeRun_concat / writeRun_ranges / writeRun_nonempty on the real tables.
+// runOK evaluates the statements of writeRun_concat / writeRun_ranges / writeRun_nonempty / writeRun_sizes on the real tables.
 func (s *c17State) runOK() string {
 	var all []c17Entry
+	maxEntry := uint64(0) // M of writeRun_sizes: the largest flush size of the run
+	for _, e := range s.runInput {
+		maxEntry = max(maxEntry, uint64(17+len(e.k)+len(e.v)))
+	}
 	for i, t := range s.tables {
 		es, err := c17ScanList(t, nil)
 		if err != nil {
 			return fmt.Sprintf("table %d: scan error", i)
+		}
+		// writeRun_sizes on the real tables (flush-size units, as WriteRun counts)
+		size := uint64(0)
+		for _, e := range es {
+			size += uint64(17 + len(e.k) + len(e.v))
+		}
+		if s.runTgt > 0 && len(s.runInput) > 0 {
+			if i < len(s.tables)-1 && (size < s.runTgt || size >= s.runTgt+maxEntry) {
+				return fmt.Sprintf("table %d: size %d outside [target, target+max entry)", i, size)
+			}
+			if i == len(s.tables)-1 && size >= s.runTgt*3/2+maxEntry {
+				return fmt.Sprintf("last table: size %d not below 1.5 target + max entry", size)
+			}
 		}
 		d := t.Document()
 		if len(es) == 0 {
@@ -394,7 +412,7 @@ func (s *c17State) do(op string) (out []string) {
 				if len(b) >= 4 {
 					binary.LittleEndian.PutUint32(b[len(b)-4:], uint32(u(2)))
 				}
-			} else if f[1] == "idx" {
+			} else if f[1] == "idx" || f[1] == "idx2" {
 				// index block = after the bloom block: count, then uint32 offsets
 				if uint64(len(b)) >= d.EntriesSize+8 {
 					bits := binary.LittleEndian.Uint32(b[d.EntriesSize:])
@@ -402,6 +420,11 @@ func (s *c17State) do(op string) (out []string) {
 					if uint64(len(b)) >= pos+4 {
 						if cnt := uint64(binary.LittleEndian.Uint32(b[pos:])); cnt > 0 && uint64(len(b)) >= pos+4+4*cnt {
 							j := u(2) % cnt
+							if f[1] == "idx2" {
+								// offset j: end of the entries block (readKey fails); offset j2: beyond it (Move panics)
+								binary.LittleEndian.PutUint32(b[pos+4+4*j:], uint32(d.EntriesSize))
+								j = (j + 1 + u(2)%3) % cnt
+							}
 							binary.LittleEndian.PutUint32(b[pos+4+4*j:], uint32(d.EntriesSize+1+u(2)))
 						}
 					}
@@ -462,6 +485,7 @@ func (s *c17State) do(op string) (out []string) {
 			out = append(out, strconv.FormatBool(ans))
 		case "run":
 			s.runInput = c17ParseEntries(f[2])
+			s.runTgt = u(1)
 			s.ran = true
 			ts, err := s.tw.WriteRun(slices.Values(c17KVs(s.runInput)), u(1))
 			if err != nil {
@@ -764,6 +788,14 @@ func c17FindFP(bits []bool, present map[string]bool, base []byte, budget int) []
 // of an index block, and after the last key reach the real search and scan without touching the file.
 func c17GenBigTable(r *lib.Rng, tier string) lib.Case {
 	es := c17Run(r, r.Range(600, 1000), 6)
+	if r.Chance(2, 3) {
+		// c17Key yields the empty key with probability 1/8, so among 600+ keys it is always the first one and nothing
+		// sorts below it: move most tables away from the empty key (one common leading byte keeps the order)
+		b0 := byte(r.Range(1, 0xfe))
+		for i := range es {
+			es[i].k = append([]byte{b0}, es[i].k...)
+		}
+	}
 	c := lib.Case{Header: "M C17", Ops: []string{"tbl " + c17ShowEntries(es)}, Tags: []string{"table", "multi-index", "bigtable"}}
 	bits := make([]bool, c17BloomBits)
 	present := map[string]bool{}
@@ -773,28 +805,34 @@ func c17GenBigTable(r *lib.Rng, tier string) lib.Case {
 			bits[c17Murmur(e.k, h)%c17BloomBits] = true
 		}
 	}
-	var bases [][]byte
+	type fpBase struct {
+		pos  string
+		base []byte
+	}
+	var bases []fpBase
 	if first := es[0].k; len(first) > 0 && first[len(first)-1] > 0 {
-		bases = append(bases, c17Pred(first)) // below the first key (the D19 situation)
+		bases = append(bases, fpBase{"before-first", c17Pred(first)}) // below the first key (the D19 situation)
 	}
 	for j := 0; j < 4; j++ {
 		i := r.Intn(len(es))
+		pos := "middle"
 		switch j {
 		case 0:
-			i = i/16*16 + 15 // last entry of an index block
+			i, pos = i/16*16+15, "block-end" // after the last entry of an index block
 		case 1:
-			i = i / 16 * 16 // first entry of an index block
+			i, pos = i/16*16, "block-start" // after the first entry of an index block
 		}
 		i = min(i, len(es)-1)
-		bases = append(bases, append(append([]byte(nil), es[i].k...), 0))
+		bases = append(bases, fpBase{pos, append(append([]byte(nil), es[i].k...), 0)})
 	}
-	bases = append(bases, append(append([]byte(nil), es[len(es)-1].k...), 0xff)) // above the last key
+	bases = append(bases, fpBase{"after-last", append(append([]byte(nil), es[len(es)-1].k...), 0xff)})
 	found := 0
 	for _, b := range bases {
-		if k := c17FindFP(bits, present, b, 600000); k != nil {
+		if k := c17FindFP(bits, present, b.base, 600000); k != nil {
 			found++
 			h := lib.Hex(k)
 			c.Ops = append(c.Ops, "bloom "+h, "get "+h, "rget "+h)
+			c.Tags = append(c.Tags, "fp:"+b.pos) // candidate found with the independent hash; `bloom` shows the real answer
 		}
 	}
 	for j := 0; j < 6; j++ {
@@ -824,10 +862,10 @@ func c17GenTable(r *lib.Rng, tier string) lib.Case {
 	c.Ops = append(c.Ops, c17TableOps(r, es, 24)...)
 	if r.Chance(1, 3) {
 		// robustness outside the property's statement (M-obs): wrong version, truncated file
-		if x := r.Intn(3); x == 0 {
+		if x := r.Intn(4); x == 0 {
 			c.Ops = append(c.Ops, fmt.Sprintf("corrupt ver %d", r.Intn(5)))
-		} else if x == 1 {
-			c.Ops = append(c.Ops, fmt.Sprintf("corrupt idx %d", r.Intn(9)))
+		} else if x <= 2 {
+			c.Ops = append(c.Ops, fmt.Sprintf("corrupt %s %d", lib.Pick(r, []string{"idx", "idx2", "idx2"}), r.Intn(9)))
 			for j := 0; j < 6 && len(es) > 0; j++ {
 				c.Ops = append(c.Ops, "cget "+lib.Hex(es[(j*len(es))/6].k))
 			}
